@@ -30,6 +30,7 @@ func readMessage(in transport.Transport) (pt int, n int, msg []byte, err error) 
 	buf := make([]byte, 4096)
 
 	for {
+		verifHook("tr.reading", nil, in)
 		size, pkt, err := in.ReadPacket()
 		verifHook("tr.read", nil, in, size, err)
 		if err != nil {
